@@ -227,9 +227,8 @@ def build_model():
             os.remove(vo)
             rc, out, dt = coq_make(['Extract/Extract.vo'])
         exe = os.path.join(BUILD, 'model')
-        srcs = ['model.mli', 'model.ml', 'rt.ml'] + sorted(
-            f for f in os.listdir(OCAML) if re.fullmatch(r'm_\w+\.ml', f)) + sorted(
-            f for f in os.listdir(OCAML) if re.fullmatch(r'c\d\d\.ml', f)) + ['main.ml']
+        mls = ['model.ml', 'rt.ml'] + sorted(f for f in os.listdir(OCAML) if re.fullmatch(r'(m_\w+|c\d\d|main)\.ml', f))
+        srcs = ['model.mli'] + mls
         newest = max(os.path.getmtime(os.path.join(OCAML, s)) for s in srcs)
         if os.path.exists(exe) and os.path.getmtime(exe) >= newest:
             return exe
@@ -238,7 +237,11 @@ def build_model():
         for s in srcs:
             with open(os.path.join(OCAML, s)) as f:
                 write_if_changed(os.path.join(odir, s), f.read())
-        rc, out, dt = sh(['ocamlfind', 'ocamlopt', '-O2', '-w', '-a'] + srcs + ['-o', exe], cwd=odir, timeout=900)
+        rc, out, dt = sh(['ocamlfind', 'ocamldep', '-sort'] + mls, cwd=odir, timeout=120)
+        order = [x for x in out.split() if x.endswith('.ml')]
+        if rc != 0 or set(order) != set(mls):
+            raise CheckFailure('build', 'ocamldep -sort failed', out[-2000:])
+        rc, out, dt = sh(['ocamlfind', 'ocamlopt', '-O2', '-w', '-a', 'model.mli'] + order + ['-o', exe], cwd=odir, timeout=900)
         if rc != 0:
             raise CheckFailure('build', 'ocamlopt failed', out[-4000:])
         return exe
